@@ -720,6 +720,7 @@ type x06Script struct {
 	Tax   x06Tax         `json:"tax"`
 	Find  *x06FindEvent  `json:"find"`
 	Annot *x06AnnotEvent `json:"annot"`
+	Lca   *x06LcaEvent   `json:"lca"`
 }
 
 func x06Record(env *Env) {
@@ -754,11 +755,15 @@ func x06Record(env *Env) {
 		if s.Annot != nil {
 			env.emit(x06DoAnnot(bindir, dir, "r", s.Annot.Opts, s.Annot.Recs))
 		}
+		if s.Lca != nil {
+			env.emit(x06DoLca(bindir, dir, "r", s.Lca.Slot, s.Lca.Tol, s.Lca.Recs))
+		}
 		return
 	}
 
 	nq := env.optInt("queries", 12)
 	na := env.optInt("annots", 3)
+	nl := env.optInt("lcas", 0)
 	maxn := env.optInt("maxn", 300)
 	shapes := []string{"random", "random", "chain", "star", "binary", "caterpillar", "deep", "broom", "random"}
 	out := make([][]any, env.n)
@@ -812,6 +817,11 @@ func x06Record(env *Env) {
 				}
 			}
 			evs = append(evs, x06DoAnnot(bindir, dir, strconv.Itoa(k), o, recs))
+		}
+		for k := 0; k < nl; k++ {
+			tol := x06Tols[rng.Intn(len(x06Tols))]
+			evs = append(evs, x06DoLca(bindir, dir, strconv.Itoa(k), x06Slots[rng.Intn(len(x06Slots))], tol,
+				x06RandomLca(rng, t, tol > 0 && env.opt("synonyms", "") != "" && rng.Intn(3) == 0)))
 		}
 		mu.Lock()
 		out[i] = evs
